@@ -1,5 +1,5 @@
 """Property -> rule instances (DESIGN section 4). Each entry is a function facts -> [RuleResult]."""
-from . import dim, atomic, tag, pair, canon, deleg
+from . import dim, atomic, tag, pair, canon, deleg, guard, table
 
 ALGO_FILES = {
     "C09": ("src/algo/mod.rs",),
@@ -226,6 +226,59 @@ PROPS["C06"] = {
                "methods; filters: counts, enumerations, adjacency, matrix; UndirectedAdaptor: adjacency, directedness); sparse-index "
                "types and subset adaptors have no NodeCompactIndexable / count impls; GraphMap's EdgeIndexable normalises ids with edge_key",
     "not_decided": "that iterators enumerate the right elements; filter predicate semantics; hand-written adaptor bodies' correctness",
+}
+
+_visit = _cached("guard.visit_once", guard.visit_once)
+_dfsev = _cached("guard.dfs_events", guard.dfs_events)
+_unchk = _cached("guard.unchecked", guard.unchecked)
+_limit = _cached("guard.limit", guard.limit)
+_sibl = _cached("guard.sibling", guard.sibling_bounds)
+_scored = _cached("table.scored", table.scored)
+_escape = _cached("table.escaper", table.escaper)
+_dirs = _cached("table.directions", table.directions)
+_dotst = _cached("table.dot_statics", table.dot_statics)
+_vmap = _cached("table.visitmap", table.visitmap)
+
+
+def fn_has(*subs):
+    return lambda f, s: any(x in f for x in subs)
+
+
+PROPS["C08"] = {
+    "rules": [sub(_visit, fn_has("visit::traversal::"), 9), sub(_dfsev, lambda f, s: True, 14), sub(_vmap, lambda f, s: True, 6)],
+    "decides": "visit-once clauses: Dfs/DfsPostOrder/Topo emit a node only under the test-and-set that marks it, Bfs marks on push and marks "
+               "its start; dfs_visitor's event table (Tree/Back/CrossForward by discovered/finished state of the target, Discover under "
+               "discovered.visit, Finish after finished.visit, recursion only into undiscovered targets, nothing visited after a break); "
+               "VisitMap impls' decision tables (visit = newly inserted, is_visited = membership, unvisit only removes a present element)",
+    "not_decided": "reachability completeness, BFS distance order, the post-order property, Topo's predecessor condition as a whole",
+}
+PROPS["C09"]["rules"].append(sub(_visit, fn_has("algo::toposort"), 2))
+PROPS["C09"]["decides"] += "; toposort's inlined DFS records a node as finished only under discovered.visit==false and finished.visit==true"
+PROPS["C10"]["rules"] += [sub(_visit, fn_has("algo::dijkstra"), 3), sub(_scored, fn_has("MinScored"), 3)]
+PROPS["C10"]["decides"] += "; dijkstra relaxes only from an unsettled popped node into unsettled targets; MinScored's comparison table is a total " \
+                           "order, reversed, NaN last, with eq/partial_cmp defined through cmp"
+PROPS["C12"]["rules"] += [sub(_visit, fn_has("min_spanning_tree"), 4), sub(_scored, fn_has("MinScored"), 3)]
+PROPS["C12"]["decides"] += "; Kruskal emits an edge only under union()==true, Prim only under !nodes_taken.contains(target); MinScored table"
+PROPS["C01"]["rules"] += [sub(_unchk, fn_has("graph_impl::index_twice", "graph_impl::Graph::index_twice_mut"), 6),
+                          sub(_limit, fn_has("graph_impl::Graph::"), 8)]
+PROPS["C01"]["decides"] += "; unchecked access: index_twice's raw offsets dominated by max(a,b)<len and a!=b, index_twice_mut's raw reborrows by its " \
+                           "distinctness assertion; index-type limit: a slot is pushed only after `max()==!0 || end()!=new_index` with new_index from the vector's length"
+PROPS["C02"]["rules"] += [sub(_unchk, fn_has("StableGraph::index_twice_mut", "graph_impl::index_twice"), 6), sub(_limit, fn_has("StableGraph"), 4)]
+PROPS["C02"]["decides"] += "; unchecked access and index-type limit as for Graph"
+PROPS["C04"]["rules"] += [sub(_unchk, fn_has("matrix_graph::"), 2), sub(_limit, fn_has("matrix_graph::"), 4)]
+PROPS["C04"]["decides"] += "; swap_nonoverlapping dominated by pos+n<=new_pos; try_add_node's id allocation behind the index-type limit test"
+PROPS["C05"]["rules"].append(sub(_sibl, lambda f, s: True, 1))
+PROPS["C05"]["decides"] += "; every successor pushed into an adj::List row is dominated by target.index() < node count"
+PROPS["C19"]["rules"].append(sub(_unchk, fn_has("unionfind::"), 12))
+PROPS["C19"]["decides"] += "; every get_unchecked*/find_mut_recursive use is dominated by x.index() < len (or indexed by the loop variable of 0..len); " \
+                           "the unchecked helpers stay private unsafe fns"
+PROPS["C03"]["rules"].append(sub(_dirs, lambda f, s: True, 4))
+PROPS["C03"]["decides"] += "; Direction/CompactDirection variant order and conversion tables agree"
+PROPS["C18"] = {
+    "rules": [sub(_escape, lambda f, s: True, 5), sub(_dotst, lambda f, s: True, 1), dim_stride],
+    "decides": "Dot label escaping table (backslash before quote and backslash, newline -> \\l, others unchanged; write_str escapes char by char); "
+               "TYPE/EDGE pair digraph with ->; the adjacency bit matrix that the graph6 encoder reads is built and queried with one stride",
+    "not_decided": "spec-exactness of graph6 bit packing and triangle traversal order; DOT grammar validity of the whole output",
 }
 
 NOT_APPLICABLE = {
